@@ -894,3 +894,413 @@ Lemma ex_long_reads :
   = (Some "t", [(0, ["1"; "0"; "-1"; "2"; "345"]); (0, ["3"; "0"; "1"; "4"; "0"; "3"]);
                 (1, ["1"; "so"; "1"; "ab"]); (1, ["2"; "so"; "2"])], None).
 Proof. split; vm_compute; reflexivity. Qed.
+
+(* ================================================================== H  comment texts
+   Every line MontePy's reader stores ends up in exactly one input, in file order; read by the rules, the comment
+   texts of the stored lines of a block are the comment texts of the cards of that block, in the same order.
+   (Which card of the block a comment line between two cards is listed with differs by convention: MontePy keeps the
+   line with the input before it, Spec/Cards.v lists it with the card after it.) *)
+Definition line_texts (l : Cards.line) : list string :=
+  match l with
+  | Cards.Comment t => [t]
+  | Cards.Data _ _ _ (Some t) => [t]
+  | _ => []
+  end.
+
+(* the comment texts of a stored line, read by rules S5 / S6 *)
+Definition stored_texts (x : string) : list string := line_texts (Cards.classify x).
+
+Lemma line_texts_classify : forall x,
+  stored_texts x =
+  if Cards.all_blank x then []
+  else if Cards.is_comment_line x then [Cards.comment_text x]
+  else Cards.opt_list (option_map Cards.strip (snd (Cards.split_dollar x))).
+Proof.
+  intros x. unfold stored_texts, Cards.classify.
+  destruct (Cards.all_blank x); [reflexivity|]. destruct (Cards.is_comment_line x); [reflexivity|].
+  destruct (Cards.split_dollar x) as [d c]. cbn [snd].
+  destruct (Cards.continuation_mark (Cards.strip_right d)); destruct c; reflexivity.
+Qed.
+
+Fixpoint has_c (s : string) : bool :=
+  match s with EmptyString => false | String a r => orb (Cards.is_c a) (has_c r) end.
+
+Lemma after_c_app : forall y s, has_c y = true -> Cards.after_c (y ++ s) = Cards.after_c y ++ s.
+Proof.
+  induction y; intros s H; [discriminate|]. cbn [has_c] in H. cbn [append Cards.after_c].
+  destruct (Cards.is_c a); [reflexivity|]. apply IHy. exact H.
+Qed.
+
+Lemma c_within_has_c : forall k y, Cards.c_within k y = true -> has_c y = true.
+Proof.
+  induction k; intros y H; [destruct y; discriminate|]. destruct y as [|a r]; [discriminate|].
+  cbn [Cards.c_within] in H. cbn [has_c]. destruct (Cards.is_c a); [reflexivity|].
+  apply andb_true_iff in H. destruct H as [_ H]. apply IHk. exact H.
+Qed.
+
+Lemma strip_app_blanks : forall r n, Cards.strip (r ++ blanks n "") = Cards.strip r.
+Proof.
+  intros. unfold Cards.strip. rewrite !A_strip_right, rstrip_blanks_app_blanks. reflexivity.
+Qed.
+
+Lemma split_dollar_app_blanks : forall y n,
+  option_map Cards.strip (snd (Cards.split_dollar (y ++ blanks n ""))) = option_map Cards.strip (snd (Cards.split_dollar y)).
+Proof.
+  induction y; intros n.
+  - cbn [append]. induction n; [reflexivity|]. cbn [blanks Cards.split_dollar].
+    change (Ascii.eqb sp "$") with false. cbv iota. destruct (Cards.split_dollar (blanks n "")). exact IHn.
+  - cbn [append Cards.split_dollar]. destruct (Ascii.eqb a "$").
+    + cbn [snd option_map]. rewrite strip_app_blanks. reflexivity.
+    + specialize (IHy n). destruct (Cards.split_dollar (y ++ blanks n "")), (Cards.split_dollar y). exact IHy.
+Qed.
+
+Lemma stored_texts_app_blanks : forall y n, stored_texts (y ++ blanks n "") = stored_texts y.
+Proof.
+  intros y n. rewrite !line_texts_classify.
+  rewrite (A_all_blank (y ++ blanks n "")), (A_all_blank y), all_blank_app, all_blank_blanks.
+  cbn [all_blank]. rewrite andb_true_r.
+  destruct (all_blank y); [reflexivity|].
+  rewrite (A_comment (y ++ blanks n "")), (A_comment y). unfold spec_comment.
+  rewrite <- (spec_comment_from_rstrip (y ++ blanks n "")), rstrip_blanks_app_blanks, spec_comment_from_rstrip.
+  destruct (spec_comment_from 4 y) eqn:Ec.
+  - unfold Cards.comment_text. rewrite after_c_app, strip_app_blanks; [reflexivity|].
+    apply (c_within_has_c 5). rewrite (A_c_within 4). exact Ec.
+  - rewrite split_dollar_app_blanks. reflexivity.
+Qed.
+
+Lemma stored_texts_rstrip : forall z, stored_texts (rstrip_blanks z) = stored_texts z.
+Proof.
+  intros z. destruct (rstrip_blanks_decomp z) as [n H]. rewrite H at 2.
+  symmetry. apply stored_texts_app_blanks.
+Qed.
+
+(* ---- every stored line lands in exactly one input, in order *)
+Definition tag {A : Type} (b : nat) (l : list A) : list (nat * A) := map (pair b) l.
+
+Definition tagged_lines (ins : list input) : list (nat * string) :=
+  flat_map (fun i => tag (i_bt i) (i_lines i)) ins.
+
+(* the non-blank lines of the first three blocks as the reader stores them, with their block type *)
+Fixpoint walk (w : nat) (ls : list string) (bc bt : nat) : list (nat * string) :=
+  match ls with
+  | [] => []
+  | l :: r =>
+      let line := expandtabs TABSIZE l in
+      if all_space line then
+        (if Nat.leb 3 (S bc) then [] else walk w r (S bc) (if Nat.ltb (S bc) 3 then S bc else bt))
+      else (bt, rstrip (takeS w line)) :: walk w r bc bt
+  end.
+
+Lemma tagged_flush : forall bt raw ln, tagged_lines (flush bt raw ln) = tag bt raw.
+Proof.
+  intros. destruct raw; [reflexivity|]. unfold tagged_lines, flush.
+  cbn [nonempty flat_map mk_input i_bt i_lines]. apply app_nil_r.
+Qed.
+
+Lemma tagged_app : forall a b, tagged_lines (a ++ b)%list = (tagged_lines a ++ tagged_lines b)%list.
+Proof. intros. unfold tagged_lines. apply flat_map_app. Qed.
+
+Lemma H_lines_conserved : forall w ls lineno bc bt cont hnc raw ins,
+  rd_loop w false ls lineno bc bt cont hnc raw = (ins, None) ->
+  tagged_lines ins = (tag bt raw ++ walk w ls bc bt)%list.
+Proof.
+  induction ls as [|l r IH]; intros lineno bc bt cont hnc raw ins H.
+  - cbn [rd_loop] in H. inversion H; subst. rewrite tagged_flush. cbn [walk]. rewrite app_nil_r. reflexivity.
+  - cbn [rd_loop walk] in *. cbv zeta in *.
+    destruct (all_space (expandtabs TABSIZE l)).
+    + cbn [negb] in H. rewrite andb_true_r in H. destruct (Nat.leb 3 (S bc)).
+      * inversion H; subst. rewrite tagged_flush, app_nil_r. reflexivity.
+      * destruct (rd_loop w false r (S lineno) (S bc) (if Nat.ltb (S bc) 3 then S bc else bt) cont false [])
+          as [out e] eqn:E. inversion H; subst. rewrite tagged_app, tagged_flush.
+        rewrite (IH _ _ _ _ _ _ _ E). reflexivity.
+    + set (newinp := negb (all_space (takeS BLANK_SPACE_CONTINUE (expandtabs TABSIZE l))) &&
+                (negb cont && (negb (is_comment (expandtabs TABSIZE l)) && (hnc && nonempty raw)))) in *.
+      destruct (andb (contains "#" (takeS BLANK_SPACE_CONTINUE (expandtabs TABSIZE l)))
+                     (negb (is_comment (expandtabs TABSIZE l)))); [destruct newinp; discriminate|].
+      match type of H with (let (_, _) := ?call in _) = _ => destruct call as [out e] eqn:E end.
+      injection H as H1 H2. subst ins e. rewrite tagged_app, (IH _ _ _ _ _ _ _ E).
+      destruct newinp.
+      * rewrite tagged_flush. reflexivity.
+      * cbn [tagged_lines flat_map app]. unfold tag. rewrite map_app, <- app_assoc. reflexivity.
+Qed.
+
+(* ---- the comment texts of the cards, with the number of their block, in file order *)
+Definition card_tagged (nb : nat) (b : list Cards.card) : list (nat * string) :=
+  flat_map (fun c => tag nb (Cards.card_comments c)) b.
+
+Fixpoint block_comments (nb : nat) (bs : list (list Cards.card)) : list (nat * string) :=
+  match bs with
+  | [] => []
+  | b :: r => (card_tagged nb b ++ block_comments (S nb) r)%list
+  end.
+
+Definition spec_comments (p : Cards.problem) : list (nat * string) := block_comments 0 (Cards.cards p).
+
+Definition CS n nb cur pend amp ls := block_comments nb (bf n cur pend amp ls).
+
+Definition closing_comments (nb : nat) (cur : option Cards.card) (pend : list string) : list (nat * string) :=
+  match cur with Some c => tag nb (Cards.card_comments c ++ pend) | None => [] end.
+
+Lemma tag_app : forall (A : Type) b (x y : list A), tag b (x ++ y)%list = (tag b x ++ tag b y)%list.
+Proof. intros. apply map_app. Qed.
+
+Lemma CS_nil : forall k nb cur pend amp, CS (S k) nb cur pend amp [] = closing_comments nb cur pend.
+Proof. intros. destruct cur; cbn; rewrite ?app_nil_r; reflexivity. Qed.
+
+Lemma CS_blank : forall k nb cur pend amp r,
+  CS (S k) nb cur pend amp (Cards.Blank :: r)
+  = (closing_comments nb cur pend ++ block_comments (S nb) (Cards.blocks k r))%list.
+Proof. intros. destruct cur; cbn; rewrite ?app_nil_r; reflexivity. Qed.
+
+Lemma CS_comment : forall k nb cur pend amp t r,
+  CS (S k) nb cur pend amp (Cards.Comment t :: r) = CS (S k) nb cur (pend ++ [t])%list amp r.
+Proof.
+  intros. unfold CS, bf. cbn [Cards.cut_block]. destruct (Cards.cut_block r) as [b t']. reflexivity.
+Qed.
+
+Lemma CS_data_none : forall k nb pend amp st ws am dc r,
+  CS (S k) nb None pend amp (Cards.Data st ws am dc :: r) = CS (S k) nb (Some (fresh pend ws dc)) [] am r.
+Proof.
+  intros. unfold CS, bf. cbn [Cards.cut_block]. destruct (Cards.cut_block r) as [b t']. reflexivity.
+Qed.
+
+Lemma CS_data_new : forall k nb c pend amp st ws am dc r, andb st (negb amp) = true ->
+  CS (S k) nb (Some c) pend amp (Cards.Data st ws am dc :: r)
+  = (tag nb (Cards.card_comments c) ++ CS (S k) nb (Some (fresh pend ws dc)) [] am r)%list.
+Proof.
+  intros. unfold CS, bf. cbn [Cards.cut_block]. destruct (Cards.cut_block r) as [b t'].
+  cbn [Cards.group]. rewrite H. cbn [block_comments card_tagged flat_map]. rewrite <- app_assoc. reflexivity.
+Qed.
+
+Lemma CS_data_cont : forall k nb c pend amp st ws am dc r, andb st (negb amp) = false ->
+  CS (S k) nb (Some c) pend amp (Cards.Data st ws am dc :: r)
+  = CS (S k) nb (Some (extend c pend ws dc)) [] am r.
+Proof.
+  intros. unfold CS, bf. cbn [Cards.cut_block]. destruct (Cards.cut_block r) as [b t'].
+  cbn [Cards.group]. rewrite H. reflexivity.
+Qed.
+
+(* ---- what the reader stores of a well-formed raw line *)
+Lemma expand_cl : forall raw, SpecWire.string_forall SpecWire.ok_char (SpecWire.drop_last_cr raw) = true ->
+  expandtabs TABSIZE (cl raw) = phys raw ++ lf.
+Proof.
+  intros raw Hok. destruct (ok_body _ Hok) as (_ & Hne & Hpr).
+  unfold cl. destruct (raw_eol raw) as (e & He & Ee). rewrite Ee.
+  rewrite clean_line_eol by auto. unfold lf. rewrite expandtabs_is_S1; [reflexivity|].
+  rewrite no_eol_clean. exact Hne.
+Qed.
+
+Lemma W_line : forall w raw, SpecWire.line_ok w raw = true ->
+  all_space (expandtabs TABSIZE (cl raw)) = all_blank (Cards.physical_line w raw) /\
+  rstrip (takeS w (expandtabs TABSIZE (cl raw))) = rstrip_blanks (Cards.physical_line w raw).
+Proof.
+  intros w raw H. unfold SpecWire.line_ok in H. cbv zeta in H. apply andb_true_iff in H. destruct H as [Hok Hcl].
+  rewrite uncut_phys in Hcl by auto.
+  rewrite (A_all_blank (phys raw)), A_first_columns, (A_all_blank (takeS w (phys raw))) in Hcl.
+  destruct (lc_raw w raw Hok) as [Hpl _]. rewrite (expand_cl raw Hok).
+  assert (Cards.physical_line w raw = takeS w (phys raw)) as Ep.
+  { unfold Cards.physical_line. fold (SpecWire.uncut_line raw). rewrite uncut_phys by auto. apply A_first_columns. }
+  rewrite Ep. rewrite all_space_app. change (all_space lf) with true. rewrite andb_true_r, (all_space_plain _ Hpl).
+  destruct (Nat.leb (String.length (phys raw)) w) eqn:El.
+  - apply Nat.leb_le in El. rewrite (takeS_all _ _ El). split; [reflexivity|].
+    destruct (cut_plain w (phys raw) Hpl El) as [_ Er]. exact Er.
+  - apply Nat.leb_gt in El. cbn [orb] in Hcl. apply andb_true_iff in Hcl. destruct Hcl as [_ Hcl]. split.
+    + destruct (all_blank (phys raw)) eqn:Eb.
+      * symmetry. apply all_blank_takeS. exact Eb.
+      * cbn [orb] in Hcl. apply negb_true_iff in Hcl. symmetry. exact Hcl.
+    + unfold lf. rewrite takeS_app_ge by lia. apply rstrip_plain. apply all_plain_takeS. exact Hpl.
+Qed.
+
+(* the comment texts of the stored lines of the first three blocks, with their block type *)
+Definition MW (w : nat) (ls : list string) (bc bt : nat) : list (nat * string) :=
+  flat_map (fun bx => tag (fst bx) (stored_texts (snd bx))) (walk w ls bc bt).
+
+Lemma cm_sim : forall w raws k nb cur pend amp cmt,
+  k + nb = 2 ->
+  SpecWire.wf_data w nb (SpecWire.is_some cur) cmt raws = true ->
+  (cur = None -> cmt = false -> pend = []) ->
+  (closing_comments nb cur pend ++ match cur with None => tag nb pend | Some _ => [] end
+   ++ MW w (map cl raws) nb nb)%list
+  = CS (S k) nb cur pend amp (map Cards.classify (map (Cards.physical_line w) raws)).
+Proof.
+  induction raws as [|l r IH]; intros k nb cur pend amp cmt Hk Hwf Hp.
+  - cbn [map]. rewrite CS_nil. unfold MW. cbn [walk flat_map]. rewrite app_nil_r.
+    cbn [SpecWire.wf_data] in Hwf. destruct cur as [c|]; [rewrite app_nil_r; reflexivity|].
+    cbn in Hwf. destruct cmt; [discriminate|]. rewrite (Hp eq_refl eq_refl). reflexivity.
+  - cbn [SpecWire.wf_data] in Hwf. apply andb_true_iff in Hwf. destruct Hwf as [Hok Hwf].
+    destruct (W_line w l Hok) as [Eb Es]. cbv zeta in Hwf. cbn [map]. unfold MW. cbn [walk]. cbv zeta.
+    rewrite Eb, Es. fold (MW w (map cl r)).
+    set (z := Cards.physical_line w l) in *.
+    pose proof (C_classify z) as HC.
+    assert (stored_texts (rstrip_blanks z) = line_texts (Cards.classify z)) as Et by apply stored_texts_rstrip.
+    destruct (Cards.classify z) as [|t|st ws am dc] eqn:Ecl.
+    + (* blank *)
+      rewrite HC. apply andb_true_iff in Hwf. destruct Hwf as [Hcl Hwf]. rewrite CS_blank.
+      assert ((closing_comments nb cur pend ++ match cur with None => tag nb pend | Some _ => [] end)%list
+              = closing_comments nb cur pend) as E0.
+      { destruct cur as [c|]; [apply app_nil_r|]. cbn in Hcl. destruct cmt; [discriminate|].
+        rewrite (Hp eq_refl eq_refl). reflexivity. }
+      rewrite app_assoc, E0. f_equal.
+      destruct k as [|k'].
+      * assert (nb = 2) by lia. subst nb. reflexivity.
+      * assert (Nat.ltb (S nb) 3 = true) as Elt by (apply Nat.ltb_lt; lia).
+        assert (Nat.leb 3 (S nb) = false) as Ele by (apply Nat.leb_gt; lia).
+        rewrite Elt in Hwf. rewrite Elt, Ele.
+        pose proof (IH k' (S nb) None [] false false ltac:(lia) Hwf (fun _ _ => eq_refl)) as P.
+        cbn [closing_comments tag map app] in P. unfold MW in P. rewrite P. unfold CS. rewrite blocks_bf. reflexivity.
+    + (* comment line *)
+      destruct HC as [Hb Hc]. rewrite Hb. cbn [flat_map fst snd]. rewrite Et. cbn [line_texts].
+      rewrite CS_comment. rewrite <- (IH k nb cur (pend ++ [t])%list amp true Hk Hwf); [|intros; discriminate].
+      fold (MW w (map cl r) nb nb).
+      destruct cur as [c|]; cbn [closing_comments app]; rewrite ?app_assoc, ?tag_app, ?app_nil_r;
+        rewrite <- ?app_assoc; reflexivity.
+    + (* data line *)
+      destruct HC as (Hb & _). rewrite Hb. cbn [flat_map fst snd]. rewrite Et. cbn [line_texts].
+      fold (MW w (map cl r) nb nb).
+      apply andb_true_iff in Hwf. destruct Hwf as [_ Hwf].
+      apply andb_true_iff in Hwf. destruct Hwf as [_ Hwf].
+      apply andb_true_iff in Hwf. destruct Hwf as [_ Hwf].
+      apply andb_true_iff in Hwf. destruct Hwf as [_ Hwf].
+      assert (tag nb match dc with Some t => [t] | None => [] end = tag nb (Cards.opt_list dc)) as Ed
+        by (destruct dc; reflexivity).
+      destruct cur as [c|].
+      * destruct (andb st (negb amp)) eqn:En.
+        { rewrite (CS_data_new k nb c pend amp st ws am dc _ En).
+          rewrite <- (IH k nb (Some (fresh pend ws dc)) [] am cmt Hk Hwf); [|intros; discriminate].
+          cbn [closing_comments fresh Cards.card_comments app]. rewrite Ed, !tag_app, !app_nil_r, <- !app_assoc.
+          reflexivity. }
+        { rewrite (CS_data_cont k nb c pend amp st ws am dc _ En).
+          rewrite <- (IH k nb (Some (extend c pend ws dc)) [] am cmt Hk Hwf); [|intros; discriminate].
+          cbn [closing_comments extend Cards.card_comments app]. rewrite Ed, !tag_app, !app_nil_r, <- !app_assoc.
+          reflexivity. }
+      * rewrite CS_data_none.
+        rewrite <- (IH k nb (Some (fresh pend ws dc)) [] am cmt Hk Hwf); [|intros; discriminate].
+        cbn [closing_comments fresh Cards.card_comments app]. rewrite Ed, !tag_app, !app_nil_r, <- !app_assoc.
+        reflexivity.
+Qed.
+
+(* ---- whole files *)
+Definition mp_comments (ins : list input) : list (nat * string) :=
+  flat_map (fun i => tag (i_bt i) (flat_map stored_texts (i_lines i))) ins.
+
+(* the inputs MontePy's reader yields for a file (list of raw lines) *)
+Definition read_inputs (w : nat) (f : list string) : list input :=
+  fst (read_data_from w 0 (f_rest (read_front_matters (map clean_line f)))).
+
+Lemma flat_tag : forall b ls,
+  flat_map (fun bx : nat * string => tag (fst bx) (stored_texts (snd bx))) (tag b ls) = tag b (flat_map stored_texts ls).
+Proof.
+  induction ls; [reflexivity|]. unfold tag in *. cbn [map flat_map fst snd]. rewrite IHls, map_app. reflexivity.
+Qed.
+
+Lemma mp_comments_tagged : forall ins,
+  mp_comments ins = flat_map (fun bx => tag (fst bx) (stored_texts (snd bx))) (tagged_lines ins).
+Proof.
+  induction ins; [reflexivity|]. unfold mp_comments, tagged_lines in *. cbn [flat_map].
+  rewrite flat_map_app, flat_tag, IHins. reflexivity.
+Qed.
+
+Fixpoint raw_after_blank (w : nat) (raws : list string) : list string :=
+  match raws with
+  | [] => []
+  | l :: r => if Cards.all_blank (Cards.physical_line w l) then r else raw_after_blank w r
+  end.
+
+Definition raw_after_front (w : nat) (raws : list string) : list string :=
+  match raws with
+  | l :: _ => if Cards.starts_message (Cards.physical_line w l) then raw_after_blank w raws else raws
+  | [] => []
+  end.
+
+Lemma R1 : forall w r,
+  snd (Cards.until_blank (map (Cards.physical_line w) r)) = map (Cards.physical_line w) (raw_after_blank w r).
+Proof.
+  induction r; [reflexivity|]. cbn [map Cards.until_blank raw_after_blank].
+  destruct (Cards.all_blank (Cards.physical_line w a)); [reflexivity|].
+  destruct (Cards.until_blank (map (Cards.physical_line w) r)). exact IHr.
+Qed.
+
+Lemma R2 : forall w r acc, SpecWire.wf_message w r = true ->
+  f_rest (message_loop (map cl r) acc) = map cl (tl (raw_after_blank w r)) /\
+  SpecWire.wf_title w (raw_after_blank w r) = true.
+Proof.
+  induction r as [|l r IH]; intros acc H; [split; reflexivity|].
+  cbn [SpecWire.wf_message] in H. apply andb_true_iff in H. destruct H as [Hl H].
+  destruct (B_front_line w l Hl) as (Hpl & Hlen & Ep & Ec). cbv zeta in *.
+  cbn [map message_loop raw_after_blank]. unfold cl at 1. rewrite Ec.
+  rewrite all_space_app. change (all_space lf) with true. rewrite andb_true_r, (all_space_plain _ Hpl).
+  rewrite Ep in *. rewrite (A_all_blank (smap clean_byte (SpecWire.drop_last_cr l))) in *.
+  destruct (all_blank (smap clean_byte (SpecWire.drop_last_cr l))).
+  - split; [|exact H]. destruct r; reflexivity.
+  - apply IH. exact H.
+Qed.
+
+Lemma R5 : forall ls,
+  Cards.cards (Cards.read_physical ls) = Cards.blocks 3 (map Cards.classify (tl (after_front ls))).
+Proof.
+  intros ls. unfold Cards.read_physical, after_front. destruct ls as [|l r]; [reflexivity|].
+  destruct (Cards.starts_message l).
+  - destruct (Cards.until_blank (l :: r)) as [m t]. cbn [snd]. destruct t; reflexivity.
+  - reflexivity.
+Qed.
+
+Lemma R4 : forall w raws, SpecWire.wf_lines w raws = true ->
+  f_rest (read_front_matters (map cl raws)) = map cl (tl (raw_after_front w raws)) /\
+  SpecWire.wf_data w 0 false false (tl (raw_after_front w raws)) = true /\
+  after_front (map (Cards.physical_line w) raws) = map (Cards.physical_line w) (raw_after_front w raws).
+Proof.
+  intros w raws H. destruct raws as [|l0 r]; [discriminate|].
+  cbn [SpecWire.wf_lines] in H. cbn [map after_front read_front_matters raw_after_front].
+  assert (SpecWire.front_line_ok w l0 = true) as Hl0.
+  { destruct (Cards.starts_message (Cards.physical_line w l0)).
+    - cbn [SpecWire.wf_message] in H. apply andb_true_iff in H. tauto.
+    - cbn [SpecWire.wf_title] in H. apply andb_true_iff in H. tauto. }
+  destruct (B_front_line w l0 Hl0) as (Hpl & Hlen & Ep & Ec). cbv zeta in *.
+  change (clean_line (add_lf l0)) with (cl l0) in Ec.
+  rewrite Ec, E_msg_prefix. rewrite <- Ep.
+  destruct (Cards.starts_message (Cards.physical_line w l0)) eqn:Em.
+  - pose proof Em as Eb. rewrite Ep in Eb. apply starts_message_not_blank in Eb.
+    pose proof H as H'. cbn [SpecWire.wf_message] in H'. apply andb_true_iff in H'. destruct H' as [_ H'].
+    rewrite Ep, (A_all_blank (smap clean_byte (SpecWire.drop_last_cr l0))), Eb in H'.
+    destruct (R2 w r [rstrip (dropS 9 (smap clean_byte (SpecWire.drop_last_cr l0) ++ lf))] H') as [F1 F2].
+    cbn [raw_after_blank]. rewrite Ep, (A_all_blank (smap clean_byte (SpecWire.drop_last_cr l0))), Eb.
+    split; [exact F1|]. split.
+    + destruct (raw_after_blank w r); [reflexivity|]. cbn [SpecWire.wf_title] in F2.
+      apply andb_true_iff in F2. cbn [tl]. tauto.
+    + rewrite <- Ep. change (Cards.physical_line w l0 :: map (Cards.physical_line w) r)
+        with (map (Cards.physical_line w) (l0 :: r)).
+      rewrite R1. cbn [raw_after_blank]. rewrite Ep, (A_all_blank (smap clean_byte (SpecWire.drop_last_cr l0))), Eb.
+      reflexivity.
+  - cbn [f_rest tl]. split; [reflexivity|]. split; [|reflexivity].
+    cbn [SpecWire.wf_title] in H. apply andb_true_iff in H. tauto.
+Qed.
+
+Theorem comments_agree : forall w bytes, SpecWire.wf_file w bytes = true ->
+  mp_comments (read_inputs w (split_lines bytes)) = spec_comments (Cards.read w bytes).
+Proof.
+  intros w bytes H. pose proof (split_agrees w bytes H) as SA.
+  unfold SpecWire.wf_file in H. apply andb_true_iff in H. destruct H as [Hlf H].
+  rewrite (B_split_lines bytes Hlf) in *. unfold Cards.read, Cards.physical_lines, spec_comments in *.
+  set (raws := Cards.lines_of bytes) in *.
+  destruct (R4 w raws H) as (F1 & F2 & F3).
+  unfold read_inputs. unfold read_lines in SA. rewrite map_map in *.
+  change (fun x => clean_line (add_lf x)) with cl in *. rewrite F1 in *.
+  set (body := tl (raw_after_front w raws)) in *.
+  destruct (read_data_from w 0 (map cl body)) as [ins e] eqn:E. cbn [fst].
+  assert (e = None) as He by (unfold montepy_view in SA; congruence). subst e.
+  unfold read_data_from in E. pose proof (H_lines_conserved _ _ _ _ _ _ _ _ _ E) as T. cbn [tag map app] in T.
+  rewrite mp_comments_tagged, T.
+  pose proof (cm_sim w body 2 0 None [] false false eq_refl F2 (fun _ _ => eq_refl)) as P.
+  cbn [closing_comments tag map app] in P. unfold MW in P. rewrite P.
+  unfold CS. rewrite <- blocks_bf, R5, F3. unfold body. destruct (raw_after_front w raws); reflexivity.
+Qed.
+
+Lemma ex_comments :
+  mp_comments (read_inputs 80 (split_lines ex_file_lf))
+  = [(0, "cells"); (0, "inner"); (0, "in between"); (1, "sphere &"); (1, "")] /\
+  map (fun i => (i_bt i, i_lines i)) (read_inputs 80 (split_lines ex_file_lf))
+  = [(0, ["c cells"; "1 0     -1 $ inner"; "     imp:n=1 &"; "  C in between"; "vol=2"]);
+     (0, ["  2 0 1"; "      c 5"]);
+     (1, ["1 so 1 $ sphere &"; "c"]);
+     (2, ["mode n"])].
+Proof. split; vm_compute; reflexivity. Qed.
